@@ -61,6 +61,7 @@ RUNS = {
         {"name": "K7-scenarios", "mode": "k7scen", "budget": (10, 200), "nontrivial": r".", "keyfn": "k7scen"},
         {"name": "K2-stale-receive-buffers", "mode": "k2", "budget": (1000, 25000), "nontrivial": r"recv\d+=(msg|proto)", "keyfn": "k2"},
         {"name": "K7-reply-content-under-concurrency", "mode": "k7tags", "budget": (90, 2000), "nontrivial": r"missing=0", "keyfn": "generic"},
+        {"name": "K7-replies-across-connections", "mode": "kxconn", "budget": (6, 120), "nontrivial": r"bad=0", "keyfn": "generic"},
         {"name": "K6-client-replies-keep-their-content", "mode": "kmux", "budget": (600, 6000), "nontrivial": r".", "keyfn": "generic"},
         {"name": "K7-messages-intact-while-in-use", "mode": "kalias", "budget": (70, 1400), "nontrivial": r"answered=1", "keyfn": "generic"},
     ],
@@ -82,6 +83,7 @@ RUNS = {
     ],
     "C06": [
         {"name": "K7-tags", "mode": "k7tags", "budget": (120, 3000), "nontrivial": r"missing=0", "keyfn": "generic"},
+        {"name": "K7-replies-across-connections", "mode": "kxconn", "budget": (6, 120), "nontrivial": r"bad=0", "keyfn": "generic"},
         {"name": "K7-tag-reuse", "mode": "k7reuse", "budget": (20, 400), "nontrivial": r".", "keyfn": "generic"},
         {"name": "K7-mutual-flushes", "mode": "kmutual", "budget": (60000, 2000000), "nontrivial": r"stuck=0", "keyfn": "generic"},
         {"name": "K7-flush-replies", "mode": "k7flush", "budget": (60, 1500), "nontrivial": r"rflush=1", "keyfn": "generic"},
@@ -716,6 +718,10 @@ PROPS["C15"]["level_text"] += (" The errno of a failing backend call is what the
 PROPS["C09"]["level_text"] += (" A walk advances only through directories (walk_stops_at_non_directory, Session/Closes.lean): at any iteration of the "
     "component loop - the first or after any number of steps - a node the backend did not report as a directory ends the walk with EINVAL, and the only "
     "backend calls still made are Close calls of dropped references.")
+for _p in ("C06", "C18"):
+    PROPS[_p]["rule"] = PROPS[_p].get("rule", "") + (" kxconn: 8..16 connections of one server exchange Tversion/Rversion as fast as they can for 150..250 ms, "
+        "with tags, msize and version strings of their own: every reply must carry its own connection's tag, size, msize and string (anything a reply is "
+        "built from that is shared between connections shows within a few thousand replies).")
 PROPS["C10"]["level_text"] += (" Recycled response objects (Conc/RespPool.lean, after defect D20): over all clients of the process and every "
     "interleaving of calls starting, failing to send, being answered, connections failing and calls returning, a pooled response is referenced "
     "by no pending map and its channel is empty, no response serves two calls, and handleOne never blocks on a done channel while holding the "
